@@ -453,6 +453,14 @@ def step (line : String) : String :=
         | .create => "create" | .append => "append" | .rewrite => "rewrite" | .none => "none"
       let d := Conform.decide o
       (Json.mkObj [("ok", Json.mkObj [("action", Json.str (show_ d.1)), ("report", Json.bool d.2)])]).compress
+    | .ok "report" =>
+      -- `effect[filename] = effect.get(filename, False) or modified` over all `_conform_filename` calls of one sync
+      let calls : List (String × Bool) := match j.getObjValAs? (Array Json) "calls" with
+        | .ok a => a.toList.filterMap fun x => match x with
+          | Json.arr #[Json.str f, Json.bool b] => some (f, b)
+          | _ => none
+        | _ => []
+      (Json.mkObj [("ok", Json.arr ((FsSync.GroundTruth.report calls).map fun fb => Json.arr #[Json.str fb.1, Json.bool fb.2]).toArray)]).compress
     | .ok "cli_other" =>
       let b (k : String) := (j.getObjValAs? Bool k).toOption.getD false
       let sp := match Cli.syncPropsDecide (b "input_exists") (b "output_exists") with
